@@ -119,4 +119,57 @@ def toLoad (o : Outcome) : Except Err FileTree :=
 def loadProject (cfg : Cfg) (fs : List (Str × Src)) : ProjState :=
   loadAll cfg.dbg (fs.map (fun f => (f.1, toLoad (srcOutcome cfg f.2))))
 
+/-! ### state outside the project object: the process-wide `NameSelector`
+
+  `sourceform.namelist` hands out the page identifiers (`name`, `name~2`, ...): the first
+  request for an entity counts one more use of (directory, lower-cased name).  It is a
+  module-level object; the per-file `try/except` of `Project.__init__` knows nothing about
+  it, so whatever a file's constructor requested *before* the file was rejected stays
+  requested.  Which constructors request an identifier while the file is parsed is the
+  generated table `Gen.reservesAtParse` (probed on the code; as the code is: none -
+  identifiers are asked for lazily, when the pages and links are made). -/
+
+/-- the key a use is counted under: (directory, lower-cased name) -/
+abbrev NameKey := Str × Str
+
+/-- requests made by the constructors that were entered, given the table of those that ask -/
+def reservedWith (tbl : List (CK × CK × Str)) (evs : List (CK × CK × Str)) : List NameKey :=
+  evs.filterMap (fun e =>
+    (tbl.find? (fun t => t.1 == e.1 && t.2.1 == e.2.1)).map (fun t => (t.2.2, lower e.2.2)))
+
+/-- the identifiers requested from the NameSelector while a file with these statements is
+    parsed - whether or not the file is registered in the end -/
+def reservedBy (cfg : Cfg) (ss : List Stmt) : List NameKey :=
+  reservedWith Gen.reservesAtParse (opened cfg ss)
+
+/-- (a file that cannot be decoded is rejected before any constructor runs; for a reader
+    error the statements read before it are not part of `Src`, so this is exact only as
+    long as the table is empty - which `C20.parse_reserves_nothing` establishes) -/
+def srcReserved (cfg : Cfg) : Src → List NameKey
+  | .undecodable => []
+  | .readerError => []
+  | .stmts ss => reservedBy cfg ss
+
+/-- the requests of all the files that are read, in reading order; nothing is ever
+    withdrawn (without `dbg` the loop ends at the first rejected file) -/
+def namesFrom (dbg : Bool) : List (List NameKey × Except Err FileTree) → List NameKey
+  | [] => []
+  | (r, .ok _) :: rest => r ++ namesFrom dbg rest
+  | (r, .error _) :: rest => if dbg then r ++ namesFrom dbg rest else r
+
+/-- the state of the NameSelector when `Project(settings)` returns -/
+def projectNames (cfg : Cfg) (fs : List (Str × Src)) : List NameKey :=
+  namesFrom cfg.dbg (fs.map (fun f => (srcReserved cfg f.2, toLoad (srcOutcome cfg f.2))))
+
+/-- what the reader model does on a file, in the vocabulary of the probes of the real
+    reader (`Gen.eofProbes`); the model is total, so it never says `hung` -/
+def readerObs (m : Marks) (lines : List Str) : ProbeObs :=
+  match readAll m lines with
+  | .ok xs => .items xs
+  | .error _ => .raised
+
+/-- the number `get_name` gives a new entity with key `k` after the requests `tbl`
+    (1 = plain `name`, n > 1 = `name~n`) -/
+def nextNumber (tbl : List NameKey) (k : NameKey) : Nat := (tbl.filter (· == k)).length + 1
+
 end Ford
